@@ -417,7 +417,7 @@ theorem useful_answer_resets_requesting_audience (H : Hash) (s : Store) (now : I
 /-- **Local causes are never shared (question state).** If the request was
 cancelled or past its deadline, is optional enrichment, hit its work budget,
 or this exact response was marked with a request-local cause (work budget,
-attempt limit, shed probe follower, recursion depth, cancellation,
+attempt limit, shed probe follower, load shed at the resolver's own admission, recursion depth, cancellation,
 deadline), `cacheableResolutionFailure` is false and the write-back leaves
 the store untouched. -/
 theorem local_causes_never_shared (ctx : Ctx)
@@ -432,7 +432,8 @@ theorem local_causes_never_shared (ctx : Ctx)
 /-- every cause `MarkRequestLocalFailureResponse` accepts is one of those. -/
 theorem marked_causes_are_local :
     Cause.isRequestLocal .workLimit = true ∧ Cause.isRequestLocal .attemptLimit = true ∧
-    Cause.isRequestLocal .probeLimit = true ∧ Cause.isRequestLocal .maxRecursion = true ∧
+    Cause.isRequestLocal .probeLimit = true ∧ Cause.isRequestLocal .loadShed = true ∧
+    Cause.isRequestLocal .maxRecursion = true ∧
     Cause.isRequestLocal .canceled = true ∧ Cause.isRequestLocal .deadline = true := by
   decide
 
